@@ -81,7 +81,9 @@ def parseEvent (l : Line) : Option FlowObs.Event :=
 def monStep (ms : MonSt) (l : Line) : MonSt × Option String × Option String :=
   match str l "op" with
   | "reset" =>
-    let base : C04.MonState := { issuer := str l "issuer", clients := parseClients l, jwtMaxAgeIAT := 3600 * Go.second, jwtOffset := Go.second }
+    -- round 4b (C04): `sc` on the reset line = the provider's JWTProfileVerifier was built with op.SubjectCheck (configuration)
+    let base : C04.MonState := { issuer := str l "issuer", clients := parseClients l, jwtMaxAgeIAT := 3600 * Go.second, jwtOffset := Go.second,
+                                 subjectCheckCustom := has l "sc" }
     ({ m04 := base, m07 := { base := base, refreshEnabled := bool l "refresh" }, reqs := [] }, none, none)
   | op =>
     if (op == "exchange" || op == "refresh") && str l "obs" == "panic" then
